@@ -837,6 +837,7 @@ func (s *verifSink) Write(p []byte) (int, error) {
 }
 
 //@ func (*verifSink).Write returns (n, err)
+//@ uses be64Frame, be32Frame
 //@ harness
 //@ requires s != nil
 //@ ensures n == len(p) && err == nil
